@@ -178,13 +178,17 @@ def long_hosts(n):
 
 
 def gen_line(r, names, big=True, sub=b"", absdir=None, fatal=False):
-    k = r.weighted([("host", 8), ("range", 4), ("comment", 2), ("trail_comment", 2), ("blank", 2), ("include", 6), ("bad_include", 1),
+    k = r.weighted([("host", 8), ("range", 4), ("range2", 2), ("comment", 2), ("trail_comment", 2), ("blank", 2), ("include", 6), ("bad_include", 1),
                     ("long", 1 if big else 0), ("indented_include", 1), ("multi", 2), ("long_small", 1), ("noblank_include", 1),
                     ("cr_include", 1), ("asis_include", 2), ("subdir_include", 2), ("long_rel_include", 1 if fatal else 0), ("hash_include_comment", 1)])
     if k == "host":
         return hlgen.gen_text(r, ("alpha", "alnum", "dash", "dot"))
     if k == "range":
         return hlgen.gen_text(r, ("alpha",)) + b"[" + hlgen.render_ranges(hlgen.gen_ranges(r, maxn=2)) + b"]"
+    if k == "range2":
+        # a second pair of brackets: expanded by the second pass over the assembled list, whatever the source of the word
+        return hlgen.gen_text(r, ("alpha",)) + b"[" + r.choice([b"1-2", b"3", b"08-10", b"1,3"]) + b"]" + r.choice([b"-", b"r", b"-e"]) + \
+            b"[" + r.choice([b"0-1", b"2", b"01-02", b"5,7"]) + b"]"
     if k == "comment":
         return b"# " + hlgen.gen_text(r, ("alpha",))
     if k == "trail_comment":
